@@ -317,6 +317,96 @@ impl<'a> Wire<'a> {
         }
     }
 
+    /// SIGNATURE LIMITS INSIDE VARIANTS: a variant writes the signature of its content; that signature is limited to 255
+    /// characters and 32 levels of array / struct nesting like any other. Contents at and just over both limits, through
+    /// the dynamic API (a `params::Variant`), at top level and nested; compared with the model (`w.enc` is the proved
+    /// specification: it refuses the ones over the limit).
+    pub fn run_variant_sig_limits(&mut self) {
+        let mut cases: Vec<(Ty, Val)> = Vec::new();
+        for n in [252usize, 253, 254, 255, 300] {
+            // "(" + n * "y" + ")" has n + 2 characters
+            cases.push((Ty::Struct(vec![Ty::Base('y'); n]), Val::Struct(vec![Val::Num(1); n])));
+        }
+        for n in [31usize, 32, 33, 34] {
+            let mut ty = Ty::Base('y');
+            let mut val = Val::Num(7);
+            for _ in 0..n {
+                ty = Ty::Array(Box::new(ty));
+                val = Val::Arr(vec![val]);
+            }
+            cases.push((ty, val));
+        }
+        for n in [31usize, 32, 33] {
+            let mut ty = Ty::Base('u');
+            let mut val = Val::Num(7);
+            for _ in 0..n {
+                ty = Ty::Struct(vec![ty]);
+                val = Val::Struct(vec![val]);
+            }
+            cases.push((ty, val));
+        }
+        // a signature VALUE of 254 / 255 characters (and one of 256, which has no encoding)
+        for n in [254usize, 255, 256] {
+            let text = "y".repeat(n);
+            let ty = Ty::Base('g');
+            let val = Val::Str(text.into_bytes());
+            if let Some(param) = to_param(&ty, &val, &[]) {
+                for bo in ORDERS {
+                    for phase in [0usize, 3] {
+                        let mut buf = vec![0u8; phase];
+                        let mut fds = Vec::new();
+                        let r = guard(|| {
+                            let mut ctx = MarshalContext { buf: &mut buf, fds: &mut fds, byteorder: bo };
+                            rustbus::wire::marshal::container::marshal_param(&param, &mut ctx)
+                        });
+                        let ok = matches!(r, Ok(Ok(())));
+                        self.out.hit(if ok { "signature_value_limit_emitted" } else { "signature_value_limit_refused" });
+                        if self.mode == Mode::C02 {
+                            let req = format!("w.enc {} {} {} {}", bo_name(bo), phase, ty.sig(), val.show());
+                            self.out.case(&req, &if ok { hex(&buf[phase..]) } else { "refuse".to_string() }, true);
+                        } else if ok {
+                            let mut full = buf.clone();
+                            full.push(0x5A);
+                            self.dec_case(bo, phase, &ty, &full, None, true);
+                        }
+                    }
+                }
+            }
+        }
+        for (cty, cval) in cases {
+            let inner = Val::Variant(cty.clone(), Box::new(cval));
+            let shapes: Vec<(Ty, Val)> = vec![
+                (Ty::Variant, inner.clone()),
+                (Ty::Struct(vec![Ty::Base('y'), Ty::Variant]), Val::Struct(vec![Val::Num(9), inner.clone()])),
+                (Ty::Array(Box::new(Ty::Variant)), Val::Arr(vec![inner.clone()])),
+            ];
+            for (ty, val) in shapes {
+                let Some(param) = to_param(&ty, &val, &[]) else { continue };
+                for bo in ORDERS {
+                    let phase = (cty.sig().len() + ty.sig().len()) % 8;
+                    let mut buf = vec![0u8; phase];
+                    let mut fds = Vec::new();
+                    let r = guard(|| {
+                        let mut ctx = MarshalContext { buf: &mut buf, fds: &mut fds, byteorder: bo };
+                        rustbus::wire::marshal::container::marshal_param(&param, &mut ctx)
+                    });
+                    let ok = matches!(r, Ok(Ok(())));
+                    self.out.hit(if ok { "variant_sig_limit_emitted" } else { "variant_sig_limit_refused" });
+                    if self.mode == Mode::C02 {
+                        let req = format!("w.enc {} {} {} {}", bo_name(bo), phase, ty.sig(), val.show());
+                        let obs = if ok { hex(&buf[phase..]) } else { "refuse".to_string() };
+                        self.out.case(&req, &obs, true);
+                    } else if ok {
+                        // what was emitted is read back by the three decoders (a 255-character signature is the longest there is)
+                        let mut full = buf.clone();
+                        full.push(0x5A);
+                        self.dec_case(bo, phase, &ty, &full, None, true);
+                    }
+                }
+            }
+        }
+    }
+
     /// DEEP NESTING: towers of containers written by hand (independent of the library's marshallers), total depth
     /// 60..68 around the limit of 64, in six outer shapes, through raw validation, the Param unmarshaller and the typed
     /// API: all three must accept exactly up to 64 levels (one per array, struct and variant, two per dict) and agree.
@@ -671,12 +761,24 @@ impl<'a> Wire<'a> {
             self.out.case(&req, if refused { "refuse" } else { "emitted" }, true);
             done += 1;
         }
-        // typed API: &str / String with NUL at every position, alone and nested
+        // typed API: &str / String with NUL at every position, alone and nested: "abc" at three phases in both byte orders,
+        // and every string of 1..=26 bytes with its NUL at every position (a scan that works on words or blocks must not
+        // skip the tail or the seam)
+        let mut nul_strings: Vec<(String, Vec<ByteOrder>, Vec<usize>)> = Vec::new();
         for pos in 0..4usize {
             let mut s = String::from("abc");
             s.insert(pos, '\0');
-            for bo in ORDERS {
-                for phase in [0usize, 1, 5] {
+            nul_strings.push((s, ORDERS.to_vec(), vec![0, 1, 5]));
+        }
+        for len in 1..=26usize {
+            for pos in 0..len {
+                let s: String = (0..len).map(|i| if i == pos { '\0' } else { (b'a' + (i % 26) as u8) as char }).collect();
+                nul_strings.push((s, vec![ORDERS[(len + pos) % 2]], vec![(len * 3 + pos) % 8]));
+            }
+        }
+        for (s, orders, phases) in nul_strings {
+            for bo in orders {
+                for phase in phases.clone() {
                     let cases: Vec<(String, Box<dyn Fn(&mut MarshalContext) -> Result<(), rustbus::wire::errors::MarshalError> + '_>)> = vec![
                         ("s".into(), Box::new(|c| s.as_str().marshal(c))),
                         ("(us)".into(), Box::new(|c| (7u32, s.as_str()).marshal(c))),
@@ -735,7 +837,7 @@ fn poison(ty: &Ty, v: &Val, pick: u64, counter: &mut u64, hit: &mut bool, rng: &
             if mine && !*hit {
                 *hit = true;
                 let bad: &str = match c {
-                    's' => *rng.pick(&["\0", "a\0", "\0b", "ab\0cd"]),
+                    's' => *rng.pick(&["\0", "a\0", "\0b", "ab\0cd", "abcdefgh\0", "abcdefghijklmno\0p", "01234567\089abcdef", "abcdefghijklmnopqrstuvw\0"]),
                     'o' => *rng.pick(&["", "a", "/a/", "//", "/a b", "/\u{e9}", "/a\0"]),
                     _ => *rng.pick(&["(", "a", "{ss}", "()", "z", "a{vs}", "aaaaaaaaaaaaaaaaaaaaaaaaaaaaaaaaay"]),
                 };
@@ -802,6 +904,7 @@ pub fn run(cfg: &Cfg, mode: Mode) {
         if mode == Mode::C02 {
             w.run_unencodable(if cfg.thorough { 5000 } else { 400 });
         }
+        w.run_variant_sig_limits();
         if mode != Mode::C03 {
             w.run_refs();
         }
